@@ -21,6 +21,29 @@ CHECKS = {
         design_ref="§6 C18",
         technique="Lean 4 theorems (induction over op histories) + differential model/impl correspondence",
     ),
+    "C09": dict(
+        category="proof",
+        text=("calculate_checksum/verify_checksum/calc_modular_checksum modelled in Lean (Model/Checksum.lean); "
+              "theorems (Props/C09.lean) prove for every byte string, every prefix length and every chunk length "
+              ">= 1 that the chunked CRC-32 / CRC-32C equals the CRC of the prefix (chunk-length independence), "
+              "the modular checksum equals the sum of zero-padded big-endian words mod 2^32, null is four zero "
+              "bytes, verification is equality; standard check values by kernel evaluation. Tied to the Python "
+              "by differential execution (all prefixes/chunk lengths of short strings, boundary and random "
+              "cases of long ones, all four types + malformed) and an independent zlib/bitwise reference oracle."),
+        design_ref="§6 C09",
+        technique="Lean 4 theorems (loop invariants over List UInt8) + differential correspondence",
+    ),
+    "C20": dict(
+        category="proof",
+        text=("Routing and admission tables are REGENERATED from the running code on every check (complete "
+              "evaluation over kind x direction x mode x CRC x large x id width, against both handlers in every "
+              "step reachable at a call boundary) and the theorems of Props/C20.lean are re-checked against "
+              "them by kernel evaluation: routing rule, routed-here-never-refused-as-foreign, routed-elsewhere-"
+              "always-refused with unchanged state, table completeness. The inactive-EOF helper is enumerated "
+              "exhaustively on the implementation."),
+        design_ref="§6 C20, §4.2",
+        technique="Lean 4 decide +kernel over tables regenerated from the code (translator) + exhaustive enumeration",
+    ),
 }
 
 NOT_YET = "check not built yet in this revision of /verif (work in progress, see DESIGN.md §10)"
